@@ -9,7 +9,7 @@ keys:    hex of UTF-8 (`-` = "")        pairs: `k=v;k=v` (`.` = empty list)
   reset                                  → ok
   setValue <v> | getValue | update <pairs> | change <pairs> | create <pairs> | stampNow
   setItem <k> <v> | getItem <k> | delItem <k> | contains <k> | get <k> | keys | items | values | len
-  pop <k> | popitem | setdefault <k> <v> | clear
+  pop <k> | popitem | setdefault <k> <v> | clear | insert <int> <k> <v>
   push <v> | pull | gulp <v> | spew
   setClock <0|1> <int|n> | attach <0|1|n>
   region <D11|D11e>                      → true|false  (for the operations since `reset`)
@@ -113,6 +113,7 @@ def parseOp : List String → Option Op
   | ["popitem"] => some .popitem
   | ["setdefault", k, v] => do pure (.setdefault (← decStr k) (← decVal v))
   | ["clear"] => some .clear
+  | ["insert", i, k, v] => do pure (.insert (← decInt i) (← decStr k) (← decVal v))
   | ["push", v] => do pure (.push (← decVal v))
   | ["pull"] => some .pull
   | ["gulp", v] => do pure (.gulp (← decVal v))
